@@ -20,7 +20,7 @@ RULE = ('one case = one scripted response document returned by the transport for
         'call(). Fault space: every permutation of the correct array (n <= 3 exhaustively, n = 4 sampled) x every '
         'success/error mix x {none, omit k, duplicate k, add an unasked id, retype id k ("1" for 1), boolean / fractional / '
         'null id on k, `jsonrpc` member of element k / of every element not exactly the string "2.0"} + batch-level error '
-        'object (also with every wrong `jsonrpc` member) + non-array / invalid-element garbage; singles: id relation {equal, '
+        'object (also with every wrong `jsonrpc` member, and also carrying a result of every JSON type next to the error) + non-array / invalid-element garbage; singles: id relation {equal, '
         'different, null, retyped, boolean} x {result, error}, and every wrong `jsonrpc` member x {result, error}. Wrong '
         '`jsonrpc` members: absent, null, the numbers 2.0 / 2 / 2.1 / 20 / 0 / 1.0, booleans, other strings ("2", "2.00", '
         '"1.0", "2.1", "", padded, fullwidth digits), containers holding "2.0". Expected verdicts come from vmon/models/client_match.py; '
@@ -40,11 +40,12 @@ ANCHORS = [
     ('pjrpc/client/client.py', 'AbstractClient._send'), ('pjrpc/client/client.py', 'AbstractAsyncClient._send'),
 ]
 _FAULTS = ['none', 'omit', 'duplicate', 'extra', 'retype', 'bool-id', 'float-id', 'null-id', 'extra-null-id', 'batch-level-error', 'garbage',
-           'omit-two', 'extra-two', 'omit+null-id-error', 'version', 'version-batch-level']
+           'omit-two', 'extra-two', 'omit+null-id-error', 'version', 'version-batch-level', 'batch-level-error+result']
 FLOORS = {'*': {**{f'fault:{f}:{k}': 5 for f in _FAULTS for k in ('sync', 'async')},
                 'permutation:non-identity-accepted': 50, 'single:equal': 10, 'single:different': 10, 'single:null': 10,
                 'single:retyped': 10, 'single:bool': 4, 'strict:off': 100, 'op:send': 200, 'op:call': 200,
                 'mix:has-error': 100, 'verdict:accept-with-null-id-elements': 20, 'ids:zero': 50, 'ids:str': 50, 'prior:accepted': 30, 'prior:refused': 30, 'verdict:identity': 100, 'verdict:deser': 50, 'verdict:accept': 200,
+                'single:both-result-and-error': 100,
                 'version:single': 100, 'version:batch-element': 300, 'version:batch-level': 100,
                 **{f'version:{t}': 20 for t in ('absent', 'null', 'number', 'bool', 'string', 'container')}}}
 
@@ -349,6 +350,7 @@ def run_single(ctx, request_id, doc, relation, strict, is_async, op, nonjson=Non
 
 # ---- generation ---------------------------------------------------------------------------------------
 
+BOTH_RESULTS = [None, False, True, 0, 1, 1.5, '', 'r1', [], ['r1', 'r2'], {}, {'a': 1}]
 NO_MEMBER = '__absent__'
 # everything a `jsonrpc` member can be that is not exactly the JSON string "2.0": member missing, null, numbers (the number
 # 2.0, whose decimal text reads like the version string, the integer 2, others), booleans, other strings (shorter / longer
@@ -500,6 +502,14 @@ def gen(ctx):
                     for strict, is_async, op in [(s, a, o) for s in (True, False) for a in (False, True) for o in ('send', 'call')]:
                         yield 'batch', dict(n=n, notif_at=[], doc=with_version(tmpl, v), fault='version-batch-level',
                                             strict=strict, is_async=is_async, op=op)
+        # an object that would be a batch-level error (null / no id, well-formed error) but ALSO carries a result, of any JSON
+        # type: not a valid response (exactly one of result / error), neither an error to raise nor data to return
+        for r in BOTH_RESULTS:
+            for tmpl in ({'jsonrpc': '2.0', 'id': None, 'error': {'code': -32600, 'message': 'Invalid Request'}},
+                         {'jsonrpc': '2.0', 'error': {'code': 5, 'message': '', 'data': [1]}}):
+                for strict, is_async, op in [(s, a, o) for s in (True, False) for a in (False, True) for o in ('send', 'call')]:
+                    yield 'batch', dict(n=n, notif_at=[], doc={**tmpl, 'result': r}, fault='batch-level-error+result',
+                                        strict=strict, is_async=is_async, op=op)
         ble = {'jsonrpc': '2.0', 'id': None, 'error': {'code': -32600, 'message': 'Invalid Request', 'data': 'x'}}
         for doc in (ble, {'jsonrpc': '2.0', 'error': {'code': 5, 'message': ''}}):
             for strict, is_async, op in [(s, a, o) for s in (True, False) for a in (False, True) for o in ('send', 'call')]:
@@ -521,6 +531,14 @@ def gen(ctx):
                     for is_async in (False, True):
                         for op in (('send', 'call') if rid == 1 else ('send',)):
                             yield 'single', dict(request_id=rid, doc=doc, relation=relation, strict=strict, is_async=is_async, op=op)
+    # single replies carrying both an error and a result (id equal to the request's, or null)
+    for r in BOTH_RESULTS:
+        for resp_id in (1, None):
+            doc = {'jsonrpc': '2.0', 'id': resp_id, 'result': r, 'error': {'code': 7, 'message': 'm'}}
+            for strict in (True, False):
+                for is_async in (False, True):
+                    for op in ('send', 'call'):
+                        yield 'single', dict(request_id=1, doc=doc, relation='both-result-and-error', strict=strict, is_async=is_async, op=op)
     # single replies that are right in everything (id equal to the request's) but the `jsonrpc` member
     for v in WRONG_VERSIONS:
         for rid in (1, 'a', 0):
